@@ -345,6 +345,25 @@ def r5_clock_table(ctx, facts, cfg):
             holds.append(tnode(g, bid))
     ok = bool(cp) and bool(e_tsc) and bool(holds) and not g.exists_path([g.entry_node], cp, avoid_edges=e_tsc) and \
         all(not g.exists_path([tnode(g, b)], holds + npos(df, df.calls(r"TransitEventBuffer::push_back$")), avoid_nodes=cp, avoid_edges=[(b, other(l))]) for (b, l) in e_tsc)
+    # R5e: the converter exists when it is used: every path to the conversion passes the 'clock already created' outcome or creates it
+    from qlib import atomic_op
+    mk = [n for n in df.walk() if (atomic_op(n) or {}).get("kind") == "store" and is_this_field(atomic_op(n)["obj"], "_rdtsc_clock") and
+          any(x["k"] == "CXXNewExpr" for x in walk(atomic_op(n).get("value")))]
+    mkp = npos(df, mk)
+    has = []
+    for bid, b in g.blocks.items():
+        c = g.term_cond(bid)
+        if c is None:
+            continue
+        core, neg = core_and_neg(c)
+        a = atomic_op(strip(core, casts=True))
+        if a and a["kind"] == "load" and is_this_field(a["obj"], "_rdtsc_clock"):
+            has.append((bid, "F" if neg else "T"))  # label of 'clock exists'
+    ok_e = bool(cp) and bool(mkp) and bool(has) and not g.exists_path([g.entry_node], cp, avoid_nodes=mkp, avoid_edges=has) and \
+        not g.exists_path([g.entry_node], mkp, avoid_edges=[(b, other(l)) for (b, l) in has])
+    ctx.ob("C05.R5e", "_populate_transit_event_from_frontend_queue:tsc-clock-exists", ok_e,
+           "the TSC converter is created on the backend exactly when it does not exist yet, and every path to the conversion has either "
+           "seen it or created it (no statement of a Tsc logger is stamped through a null converter)", fn=df)
     ctx.ob("C05.R5d", "_populate_transit_event_from_frontend_queue:tsc-converted-exactly", ok,
            "the record's timestamp is replaced by RdtscClock::time_since_epoch(timestamp) exactly for loggers whose clock source is Tsc, "
            "on every path before it is compared or buffered (cycle counts and epoch nanoseconds are never mixed in the ordering)", fn=df)
